@@ -178,14 +178,36 @@ class TagsDomain:
     def envspec(self, rp, platform=None, impl=None):
         return self.it.construct(self.EnvSpec, [rp, platform, self.impl(impl)], {})
 
+    def py_eval(self, spec, ptag, abi):
+        """the python/abi score of one tag pair for an EnvSpec: through the private helper `_evaluate_python` while it exists, otherwise
+        through the public `compatibility()` on singleton lists (its last component is the platform score and is dropped)"""
+        it = self.it
+        f, _ = self.EnvSpec.lookup("_evaluate_python")
+        if f is not MISSING:
+            return it.call(Bound(f, spec), [ptag, abi], {})
+        comp, _ = self.EnvSpec.lookup("compatibility")
+        if comp is MISSING:
+            raise AnalysisError("anchor EnvSpec.compatibility missing")
+        r = it.call(Bound(comp, spec), [[ptag], [abi], ["any"]], {})
+        return None if r is None else tuple(r)[:-1]
+
+    def plat_eval(self, spec, tag):
+        """the platform score of one platform tag (private helper `_evaluate_platform`, or the last component of `compatibility()`)"""
+        it = self.it
+        f, _ = self.EnvSpec.lookup("_evaluate_platform")
+        if f is not MISSING:
+            return it.call(Bound(f, spec), [tag], {})
+        comp, _ = self.EnvSpec.lookup("compatibility")
+        if comp is MISSING:
+            raise AnalysisError("anchor EnvSpec.compatibility missing")
+        r = it.call(Bound(comp, spec), [["py3"], ["none"], [tag]], {})
+        return None if r is None else tuple(r)[-1]
+
     def residual(self, impl, ptag, abi):
         """-> None | ("cond", template text, score) | ("always", score) | ("weird", description)"""
         it = self.it
-        f, _ = self.EnvSpec.lookup("_evaluate_python")
-        if f is MISSING:
-            raise AnalysisError("anchor EnvSpec._evaluate_python missing")
         spec = self.envspec(ReqPy(), None, impl)
-        outs = it.run_forks(lambda: it.call(Bound(f, spec), [ptag, abi], {}))
+        outs = it.run_forks(lambda: self.py_eval(spec, ptag, abi))
         if len(outs) == 1:
             dec, (kind, val) = outs[0]
             if kind == "ok" and val is None:
@@ -255,7 +277,6 @@ def concrete_work(task):
     pvs = it.resolve(it.module("dep_logic.specifiers").ns["parse_version_specifier"])
     rp = it.call(pvs, [rp_text], {})
     rpset = rp_fine_set(rp_text)
-    f, _ = dom.EnvSpec.lookup("_evaluate_python")
     out, n = [], 0
     table = {}
     for impl in IMPLS:
@@ -264,7 +285,7 @@ def concrete_work(task):
             for abi in abi_tags(pt):
                 n += 1
                 try:
-                    r = it.call(Bound(f, spec), [pt, abi], {})
+                    r = dom.py_eval(spec, pt, abi)
                     got = None if r is None else tuple(r)
                 except PyRaise as e:
                     got = ("raise", repr(e.exc))
